@@ -8,7 +8,8 @@
    re-binding an existing variable.  Each exclusion is shown necessary by a refuted statement below. *)
 From Coq Require Import List ZArith Bool.
 Import ListNotations.
-Require Import ZV.Model.Struct ZV.Proofs.StructProofs ZV.Proofs.StructRefine.
+Require Import ZV.Model.Struct ZV.Model.StructExact ZV.Proofs.StructProofs ZV.Proofs.StructRefine.
+Require Import ZV.Proofs.StructConverse ZV.Generated.WriteRoutes ZV.Proofs.StructRoutes.
 
 (* the invariant holds initially and is preserved by EVERY operation (declaration and redeclaration,
    construction, every write route, deletion, derefSet, decode) *)
@@ -184,4 +185,102 @@ Example old_pointer_rejected :
   fst (step (run init_state h) (Write RIdx 0 (KSym 0) (VStr 2))) = ERR /\
   fst (step (run init_state h) (Write RIdx 0 (KSym 3) (VInt 2))) = ERR /\
   fst (step (run init_state h) (Write RIdx 0 (KSym 0) (VInt 2))) = OK.
+Proof. vm_compute. repeat split; reflexivity. Qed.
+
+(* ====================================================================================== *)
+(* Round 6: the CONVERSE direction, and the census of write routes.                        *)
+(* ====================================================================================== *)
+(* exact_dom st o (Model/StructExact.v): every value written is typeful (no array whose first-element spine
+   reaches a plain hash / a record of a never-declared name - SexpArray.Type gives those the generic type "[]" -
+   and no instance whose type name is unregistered), and a derefSet through a kept pointer uses a pointer whose
+   captured type object is still the current one.  On this domain TypeCheckField accepts EXACTLY what the
+   written rule accepts, and code and specification accept exactly the same operations with the same result. *)
+Theorem C17_check_value_exact : forall st dt v,
+  value_clean st v = true -> typeful st v = true -> wf_ty dt = true ->
+  (check_value st dt v = VOk <-> spec_conforms st v dt = true).
+Proof. exact check_value_exact. Qed.
+Print Assumptions C17_check_value_exact.
+
+Theorem C17_spec_refines_model : forall st o,
+  invb st = true -> clean st o = true -> exact_dom st o = true ->
+  fst (spec_step st o) = SOk -> step st o = (OK, snd (spec_step st o)).
+Proof. exact spec_refines_model. Qed.
+Print Assumptions C17_spec_refines_model.
+
+Theorem C17_accept_iff : forall st o,
+  invb st = true -> clean st o = true -> exact_dom st o = true ->
+  (fst (step st o) = OK <-> fst (spec_step st o) = SOk).
+Proof. exact accept_iff. Qed.
+Print Assumptions C17_accept_iff.
+
+(* outside exact_dom the code is STRICTER than the specification (never laxer: C17_model_refines_spec):
+   a pointer taken before a redeclaration no longer accepts an instance of the very definition its target has *)
+Example C17_code_stricter_stale_pointer :
+  let h := [Declare 0 [(0, TEBase BInt64)]; Construct 0 0 [(KSym 0, VInt 1)]; Construct 1 0 [(KSym 0, VInt 2)];
+            TakePtr 0 0; Declare 0 [(1, TEBase BString)]] in
+  let st := run init_state h in
+  invb st = true /\ clean st (DerefSetP 0 (VInst 1)) = true /\ exact_dom st (DerefSetP 0 (VInst 1)) = false /\
+  fst (spec_step st (DerefSetP 0 (VInst 1))) = SOk /\ fst (step st (DerefSetP 0 (VInst 1))) = ERR.
+Proof. vm_compute. repeat split; reflexivity. Qed.
+(* ... and an array of plain hashes is typed "[]" by the code, "[]hash" by the specification *)
+Example C17_code_stricter_typeless_array :
+  let h := [Declare 0 [(0, TESlice (TEBase BHash))]; Construct 0 0 []] in
+  let st := run init_state h in
+  let o := Write RHset 0 (KSym 0) (VArr [VHash]) in
+  invb st = true /\ clean st o = true /\ exact_dom st o = false /\
+  fst (spec_step st o) = SOk /\ fst (step st o) = ERR.
+Proof. vm_compute. repeat split; reflexivity. Qed.
+(* non-vacuity: the demo history lies in the exact domain at every step *)
+Example demo_exact :
+  forallb (fun k => exact_dom (run init_state (firstn k demo)) (nth k demo (Delete 0 (KSym 0)))) (seq 0 (length demo)) = true.
+Proof. vm_compute. reflexivity. Qed.
+
+(* HashSet's store discipline in the model: a field is stored only after TypeCheckField accepted it (or, for a
+   record WITHOUT definition, answered KeyNotSymbol); a refused HashSet leaves the fields alone; and every write
+   route of the model stores through hash_set *)
+Theorem C17_store_only_after_check : forall st i k v i',
+  hash_set st i k v = (VOk, i') ->
+  i_fields i' = fset k v (i_fields i) /\
+  (fst (type_check_field st i k v) = VOk \/
+   (fst (type_check_field st i k v) = VNotSym /\ re_defn (i_fac i') = None)).
+Proof. exact hash_set_store_checked. Qed.
+Print Assumptions C17_store_only_after_check.
+
+Theorem C17_refused_hash_set_keeps_fields : forall st i k v vd i',
+  hash_set st i k v = (vd, i') -> vd <> VOk -> i_fields i' = i_fields i.
+Proof. exact hash_set_rejected_keeps_fields. Qed.
+Print Assumptions C17_refused_hash_set_keeps_fields.
+
+Theorem C17_write_routes_go_through_hash_set : forall st r id k v i,
+  alookup id (st_store st) = Some i ->
+  fst (step_op st (Write r id k v)) = OK ->
+  exists i', hash_set st i k v = (VOk, i') /\ snd (step_op st (Write r id k v)) = put st id i'.
+Proof. exact write_routes_go_through_hash_set. Qed.
+Print Assumptions C17_write_routes_go_through_hash_set.
+
+(* the census of /repo (Generated/WriteRoutes.v, regenerated from the source on every run): every site that can
+   change what a record holds is a call of HashSet, or a direct write inside a function the model mirrors
+   (HashSet itself, TypeCheckField's adoption, HashDelete, CloneFrom/CopyMap, MakeHash and its helpers);
+   and HashSet calls TypeCheckField as a top-level statement before its first write, returns on every error
+   but KeyNotSymbol, and returns on KeyNotSymbol for a record whose factory holds a definition *)
+Theorem C17_every_write_site_covered : forall f fn k, In (f, fn, k) write_sites ->
+  k = SCallHashSet \/ (class_of writer_tbl fn <> WOther /\ kind_allowed (class_of writer_tbl fn) k = true).
+Proof. exact write_sites_covered. Qed.
+Print Assumptions C17_every_write_site_covered.
+
+Theorem C17_hashset_checks_first : shape_ok hashset_measured = true.
+Proof. exact hashset_shape_measured_ok. Qed.
+Print Assumptions C17_hashset_checks_first.
+
+Theorem C17_bypassing_site_breaks_census : forall tbl (l : list site) f fn k,
+  In (f, fn, k) l -> k <> SCallHashSet -> class_of tbl fn = WOther -> forallb (site_covered tbl) l = false.
+Proof. exact uncovered_site_breaks_census. Qed.
+Print Assumptions C17_bypassing_site_breaks_census.
+
+From Coq Require Import String.
+Local Open Scope string_scope.
+Example census_nonvacuous :
+  (3 <=? List.length (filter (fun s => site_kind_eqb (snd s) SCallHashSet) write_sites))%nat = true /\
+  site_covered writer_tbl (zs "x.go", zs "SneakyStore", SWriteMap) = false /\
+  site_covered writer_tbl (zs "x.go", zs "SexpHash.HashDelete", SWritePair) = false.
 Proof. vm_compute. repeat split; reflexivity. Qed.
